@@ -44,6 +44,7 @@ type Obligation struct {
 	Vars   map[string]string // model variables of interest: label -> smt term
 	Inputs []InputSpec
 	Encoding string
+	Static bool // decided by the engine's lock-set analysis, not by a solver
 	Pkg    string
 	Result string // "unsat","sat","unknown","timeout","error"
 	Solver string
